@@ -34,7 +34,16 @@ verus! {
 //@struct TxOut @ src/transaction/txout.rs clone
 //@struct Transaction @ src/transaction/mod.rs clone
 //@struct MatchCriteria @ src/transaction/match_criteria.rs clone default
+//@include shims/strparse.rs
 //@include spec/template.rs
+pub use OpCodes::OP_0;
+pub struct VarInt {}
+impl VarInt {
+//@stub VarInt::get_pushdata_opcode
+}
+impl ScriptTemplate {
+//@fn ScriptTemplate::map_string_to_match_token
+}
 impl PublicKey {
 //@stub PublicKey::from_bytes_impl
 }
